@@ -149,11 +149,8 @@ def arm_context(body, bb, cfg=None):
             if variants is not None:
                 names = [v["name"] for v in variants if v["discr"] in vals]
                 if other:
-                    names += ["!" + "|".join(v["name"] for v in variants if v["discr"] in listed)] if not names else []
-                    rest = [v["name"] for v in variants if v["discr"] not in listed]
-                    out.append({"switch": p, "enum": d[2], "variants": names or rest, "otherwise": True, "rest": rest, "on": d[1]})
-                else:
-                    out.append({"switch": p, "enum": d[2], "variants": names, "otherwise": False, "on": d[1]})
+                    names += [v["name"] for v in variants if v["discr"] not in listed]
+                out.append({"switch": p, "enum": d[2], "variants": names, "otherwise": bool(other), "on": d[1]})
                 continue
         out.append({"switch": p, "cond": d0, "values": sorted(vals), "otherwise": other, "listed": sorted(listed)})
     return out
